@@ -11,10 +11,10 @@ Definition chunk_bytes (c : chunk) : bytes :=
 
 (* the application data of an operation *)
 Definition op_type (o : wop) : N :=
-  match o with OpMessage t _ | OpStream t _ | OpControl t _ | OpPrepared t _ _ => t end.
+  match o with OpMessage t _ | OpStream t _ | OpControl t _ | OpPrepared t _ _ | OpZ t _ _ | OpPreparedZ t _ _ _ => t end.
 Definition op_data (o : wop) : bytes :=
   match o with
-  | OpMessage _ d | OpControl _ d | OpPrepared _ d _ => d
+  | OpMessage _ d | OpControl _ d | OpPrepared _ d _ | OpZ _ d _ | OpPreparedZ _ d _ _ => d
   | OpStream _ cs => flat_map chunk_bytes cs
   end.
 
@@ -45,5 +45,5 @@ Fixpoint close_at_end (es : list sevent) : list sevent :=
   | e :: r => e :: close_at_end r
   end.
 
-(* the peer of a server is a client and vice versa; no extension, no limits *)
-Definition peer_cfg (cfg : wcfg) : scfg := mkScfg (negb (wc_server cfg)) false 0 0.
+(* the peer of a server is a client and vice versa; same negotiated extension, no limits *)
+Definition peer_cfg (cfg : wcfg) : scfg := mkScfg (negb (wc_server cfg)) (wc_compress cfg) 0 0.
